@@ -724,10 +724,8 @@ func (db *DB) buildHintIdx(dataFileIds []int) error {
 		return err
 	}
 
-	if len(unconfirmedRecords) == 0 {
-		return nil
-	}
-
+	// no early return when the newest file holds no record: in sparse mode the
+	// root indexes of the sealed files still have to be loaded below
 	for _, r := range unconfirmedRecords {
 		if _, ok := db.committedTxIds[r.H.meta.txID]; ok {
 			bucket := string(r.H.meta.bucket)
